@@ -18,6 +18,9 @@ AMBIENT = [
     (re.compile(r"^std::hash::RandomState::new$|^std::collections::hash_map::RandomState::new$"), "random hasher state"),
     (re.compile(r"^(rand|getrandom|fastrand|nanorand)::"), "rng"),
     (re.compile(r"^std::fs::read_dir$"), "directory order"),
+    # results that arrive in the order threads happen to be scheduled: a channel's receive order, work spread over scoped threads or a
+    # pool.  A single `thread::spawn(..).join()` (e.g. the whole compiler run on a bigger stack) hands back one value and is not listed.
+    (re.compile(r"^std::thread::(scope$|Scope\b)|^std::sync::mpsc::|^(rayon|crossbeam|crossbeam_channel|tokio)::"), "thread scheduling order"),
     (re.compile(r"^std::(net|os::unix::net)::"), "network"),
 ]
 
